@@ -4,7 +4,7 @@
 cd /verif; rc=0
 for d in seeded/${1:-}*/; do
   n=$(basename $d); p=$(python3 -c "import json;print(json.load(open('$d/meta.json'))['property'])")
-  git -C /repo apply $d/patch.diff 2>/dev/null || { echo "$n: patch does not apply"; rc=1; continue; }
+  git -C /repo apply /verif/$d/patch.diff 2>/dev/null || { echo "$n: patch does not apply"; rc=1; continue; }
   out=$(./check $p 2>&1); code=$?
   git -C /repo checkout -- .
   v=$(echo "$out" | grep -c "^VIOLATION property=$p"); nf=$(echo "$out" | grep "^VIOLATION" | grep -c "no-failing-input-found")
